@@ -5,6 +5,7 @@ from engine.astutil import norm_path, U, calls, kwargs, single_defs, inline, wal
 from engine.cfg import CFG
 from engine.norm import Norm, Poly, parse_expr
 from engine.repo import AnalysisError, ORCH_MOD
+from . import common
 
 EXPLANATION = (
     "Structural clauses of C19 decided on nextflow/scripts/batchie.py: (R1) the only destructive filesystem call is "
@@ -325,21 +326,27 @@ def r5(ctx):
         out, inp = f.params[0], f.params[1]
         env = single_defs(f.node)
         sub = [c for c in calls(f.node) if U(c.func) == "run_subsequent_batch_plate"]
-        ctx.need(len(sub) == 1, f"{f.site()}: run_subsequent_batch_plate call not found")
-        kw = kwargs(sub[0])
-        want_screen = S if retro else inp
-        ctx.check("R5", f"{f.site()}::subsequent-plate-screen", U(kw.get("screen")) == want_screen,
-                  f"a later plate of the batch starts from `{want_screen}`" + (" (output of the immediately preceding step)" if retro else ""),
-                  f"a later plate of the batch is started from `{U(kw.get('screen'))}` instead of `{want_screen}`: intermediate reveals are lost from the screen lineage")
-        th = kw.get("thetas")
-        src = norm_path(th, env) if th is not None else ""
-        ok = f"get_theta_and_dist_chunks(os.path.join({out},f'iter_{{{I}}}','plate_0'))['thetas']" == src
-        ctx.check("R5", f"{f.site()}::model-files-of-same-iteration", ok, f"thetas / distance chunks come from iter_<{I}>/plate_0",
-                  f"model files are taken from `{src}`, not from plate_0 of the current iteration")
-        ex = kw.get("excludes")
-        ok = ex is not None and norm_path(ex, env) == f"get_selected_plates(os.path.join({out},f'iter_{{{I}}}'))"
-        ctx.check("R5", f"{f.site()}::excludes-of-same-iteration", ok, "already selected plates are read from the current iteration directory",
-                  f"exclusions are `{norm_path(ex, env) if ex is not None else None}`, not the selected plates of the current iteration")
+        ctx.need(len(sub) >= 1, f"{f.site()}: run_subsequent_batch_plate call not found")
+        fenv = env
+        for k_, sc in enumerate(sub):                       # one launch site, or one per arm when the launch is written per case
+            tag = "" if len(sub) == 1 else f"#{k_}"
+            env = dict(fenv)
+            env.update(common.reaching_env(f.node, sc))
+            kw = kwargs(sc)
+            want_screen = S if retro else inp
+            ctx.check("R5", f"{f.site()}::subsequent-plate-screen{tag}", U(kw.get("screen")) == want_screen,
+                      f"a later plate of the batch starts from `{want_screen}`" + (" (output of the immediately preceding step)" if retro else ""),
+                      f"a later plate of the batch is started from `{U(kw.get('screen'))}` instead of `{want_screen}`: intermediate reveals are lost from the screen lineage")
+            th = kw.get("thetas")
+            src = norm_path(th, env) if th is not None else ""
+            ok = f"get_theta_and_dist_chunks(os.path.join({out},f'iter_{{{I}}}','plate_0'))['thetas']" == src
+            ctx.check("R5", f"{f.site()}::model-files-of-same-iteration{tag}", ok, f"thetas / distance chunks come from iter_<{I}>/plate_0",
+                      f"model files are taken from `{src}`, not from plate_0 of the current iteration")
+            ex = kw.get("excludes")
+            ok = ex is not None and norm_path(ex, env) == f"get_selected_plates(os.path.join({out},f'iter_{{{I}}}'))"
+            ctx.check("R5", f"{f.site()}::excludes-of-same-iteration{tag}", ok, "already selected plates are read from the current iteration directory",
+                      f"exclusions are `{norm_path(ex, env) if ex is not None else None}`, not the selected plates of the current iteration")
+        env = fenv
         if retro:
             fb = [c for c in calls(f.node) if U(c.func) == "run_first_batch_plate"]
             ctx.need(len(fb) == 1, f"{f.site()}: run_first_batch_plate call not found")
